@@ -193,7 +193,8 @@ def pattern_z3(p, notes, ascii_only=True):
     t = RP.parse(p.pattern, p.flags)
     ic = bool(p.flags & re.IGNORECASE)
     dotall = bool(p.flags & re.DOTALL)
-    hi = 0x7F if ascii_only else 0x2FFFF  # z3's alphabet ends at U+2FFFF
+    ascii_flag = bool(p.flags & re.ASCII)  # then `\\d` / `\\s` and case folding are ASCII-only by the pattern's own flags (a fact, not an assumption)
+    hi = 0x7F if (ascii_only or ascii_flag) else 0x2FFFF  # z3's alphabet ends at U+2FFFF; bound for case-folded variants of a literal
     allc = rng("\x00", "\x7f") if ascii_only else z3.AllChar(z3.ReSort(S_))
 
     def cases(ch):
@@ -210,11 +211,11 @@ def pattern_z3(p, notes, ascii_only=True):
 
     def category(cat_):
         if cat_ is C.CATEGORY_DIGIT:
-            if not ascii_only:
+            if not ascii_only and not ascii_flag:
                 raise Unsupported("\\d outside the ASCII restriction")
             return [("0", "9")]
         if cat_ is C.CATEGORY_SPACE:
-            if not ascii_only:
+            if not ascii_only and not ascii_flag:
                 raise Unsupported("\\s outside the ASCII restriction")
             return [(c, c) for c in "\t\n\x0b\x0c\r\x1c\x1d\x1e\x1f "]
         raise Unsupported(f"category {cat_}")
@@ -286,8 +287,11 @@ def pattern_z3(p, notes, ascii_only=True):
 
 def int_lang(task, tier, seed):
     notes = []
-    J = pattern_z3(L.integer_re, notes)
-    out = [included("C14.int.lang", J, py_integer(), ASCII(), what="L(lexer.integer_re) ∩ ASCII* ⊆ L(Python integer literal)"),
+    full = bool(L.integer_re.flags & re.ASCII)
+    J = pattern_z3(L.integer_re, notes, ascii_only=not full)
+    out = [included("C14.int.lang", J, py_integer(), None if full else ASCII(),
+                    what="L(lexer.integer_re) ⊆ L(Python integer literal) over the full alphabet (pattern compiled with re.ASCII)" if full else
+                    "L(lexer.integer_re) ∩ ASCII* ⊆ L(Python integer literal)"),
            included("C14.int.lang.accepts_python_forms", py_integer(), J, ASCII(),
                     what="L(Python integer literal: decimal, binary, octal, hex with underscores) ⊆ L(lexer.integer_re)")]
     return out
@@ -295,8 +299,11 @@ def int_lang(task, tier, seed):
 
 def float_lang(task, tier, seed):
     notes = []
-    J = pattern_z3(L.float_re, notes)
-    out = [included("C14.float.lang", J, py_float(), ASCII(), what="L(lexer.float_re) ∩ ASCII* ⊆ L(Python float literal) " + "; ".join(notes)),
+    full = bool(L.float_re.flags & re.ASCII)  # compiled with re.ASCII: `\\d` is [0-9] by the pattern's own flags, no alphabet restriction needed
+    J = pattern_z3(L.float_re, notes, ascii_only=not full)
+    out = [included("C14.float.lang", J, py_float(), None if full else ASCII(),
+                    what=("L(lexer.float_re) ⊆ L(Python float literal) over the full alphabet (pattern compiled with re.ASCII) " if full else
+                          "L(lexer.float_re) ∩ ASCII* ⊆ L(Python float literal) ") + "; ".join(notes)),
            included("C14.float.lang.accepts_documented_forms", documented_float_forms(), J, ASCII(),
                     what="digits.digits[exponent] and digits exponent (with underscores) ⊆ L(lexer.float_re)"),
            included("C14.num.kinds_disjoint", z3.Intersect(py_integer(), py_float()), z3.Empty(z3.ReSort(S_)), ASCII(),
@@ -792,14 +799,16 @@ class NumValue(WitnessAlways, VC):
             if not (isinstance(v, Sym) and v.k == "int"):
                 return False
             # requires: the text of an integer token is a match of the real integer_re (rule tables, C14.lex.longest.rule_order), ASCII
-            pre_lang = z3.And(z3.InRe(vs, pattern_z3(L.integer_re, notes)), z3.InRe(vs, ASCII()))
+            full = bool(L.integer_re.flags & re.ASCII)
+            pre_lang = z3.And(z3.InRe(vs, pattern_z3(L.integer_re, notes, ascii_only=not full)), z3.BoolVal(True) if full else z3.InRe(vs, ASCII()))
             # dependency contract (underscores are ignored by the literal grammar): for a Python integer literal s,
             # int(s, 0) and int(s without underscores, 0) are the value Python assigns to s
             dep = z3.Implies(z3.InRe(vs, py_integer()), z3.And(INTV(vs, z3.IntVal(0)) == PYINT(vs), INTV(clean, z3.IntVal(0)) == PYINT(vs)))
             return z3.Implies(z3.And(pre_lang, dep), v.t == PYINT(vs))
         if not (isinstance(v, Sym) and v.k == "obj"):
             return False
-        pre_lang = z3.And(z3.InRe(vs, pattern_z3(L.float_re, notes)), z3.InRe(vs, ASCII()))
+        full = bool(L.float_re.flags & re.ASCII)
+        pre_lang = z3.And(z3.InRe(vs, pattern_z3(L.float_re, notes, ascii_only=not full)), z3.BoolVal(True) if full else z3.InRe(vs, ASCII()))
         dep = z3.Implies(z3.InRe(vs, py_float()), z3.And(LITEVAL(vs) == PYFLOAT(vs), LITEVAL(clean) == PYFLOAT(vs)))
         return z3.Implies(z3.And(pre_lang, dep), v.t == PYFLOAT(vs))
 
@@ -1058,8 +1067,10 @@ META = {
         "stand-ins on the real Environment, which is why the level is 'other'."),
     "assumptions": [
         "A8: `re` implements leftmost / ordered-alternation / greedy semantics and re._parser describes the pattern `re` executes",
-        "ASCII alphabet: `\\d` is taken as [0-9]; a str pattern's `\\d` also matches the other Unicode Nd digits (e.g. `{{ ١٢ }}` lexes as the "
-        "integer 12, which Python rejects as a literal) - outside the statement's alphabet [0-9_.eExXoObB]",
+        "ASCII alphabet for patterns compiled WITHOUT re.ASCII (currently integer_re): `\\d` is taken as [0-9]; such a pattern's `\\d` also matches the other "
+        "Unicode Nd digits (e.g. `{{ ١٢ }}` lexes as the integer 12, which Python rejects as a literal) - outside the statement's alphabet [0-9_.eExXoObB]. "
+        "For a pattern compiled with re.ASCII (float_re since the fix 'float literals only accept ASCII digits') `\\d` = [0-9] is a fact read off the "
+        "pattern's flags and the inclusion is proved over the full alphabet",
         "dependency contract: underscores are ignored by the literal grammar - for s in L(integer literal) int(s.replace('_',''), 0), and for s in "
         "L(float literal) ast.literal_eval(s.replace('_','')), is the value Python assigns to s (checked exhaustively up to length 5 by C14.bounded.numbers)",
         "dependency contract: ''.join(list of str) is the concatenation of the elements in order",
